@@ -115,6 +115,15 @@ func init() {
 				vm.Seed = sb
 			}
 			vm.Init()
+			if vm.RandSrc == nil {
+				// a context given a seed has its own generator, whatever the seed's length
+				bytes := make([]int, len(sb))
+				for j, b := range sb {
+					bytes[j] = int(b)
+				}
+				emit(map[string]any{"seed": bytes, "nosrc": true, "reused": reused})
+				continue
+			}
 			h0, l0 := srcState(vm.RandSrc)
 			nd := r.intn(6)
 			var outs []string
@@ -135,8 +144,12 @@ func init() {
 			// the same seed on a fresh context (what "seeded evaluation" promises whatever the context was used for before)
 			fresh := &ds.Context{Seed: sb}
 			fresh.Init()
-			fh, fl := srcState(fresh.RandSrc)
-			row["fresh_hi0"], row["fresh_lo0"] = u(fh), u(fl)
+			if fresh.RandSrc != nil {
+				fh, fl := srcState(fresh.RandSrc)
+				row["fresh_hi0"], row["fresh_lo0"] = u(fh), u(fl)
+			} else {
+				row["fresh_nosrc"] = true
+			}
 			emit(row)
 		}
 	}
